@@ -20,6 +20,7 @@ type Config struct {
 	RawLog       bool   `json:"rawLog"`       // include raw bytes (hex) in recv/got events
 	SmallBuf     bool   `json:"smallBuf"`     // 8 KB socket buffers everywhere (back-pressure scenarios)
 	SockBuf      int    `json:"sockBuf"`      // explicit socket buffer size (overrides smallBuf's 8 KB)
+	RaceLog      bool   `json:"raceLog"`      // log the state of the race controller before every step of a "race" plan
 	ExtraNodes   int    `json:"extraNodes"`   // additional listening nodes x1.. not in the initial topology
 }
 
@@ -45,6 +46,7 @@ type Stim struct {
 	Src   string     `json:"src"`  // source address for "open"
 	Text  string     `json:"text"` // free text (topology description name, file content ...)
 	Desc  []NodeDesc `json:"desc"` // for "topo": the description the nodes publish from now on
+	Plan  []RaceStep `json:"plan"` // for "race": a schedule of ticker() and the refresher goroutine
 	Cuts  []int      `json:"cuts"` // for "send": byte offsets at which the write is cut; every chunk but the last gets its own iteration
 }
 
